@@ -8,7 +8,8 @@ from harness import xser, xbuild, defgen, genutil
 from harness.xser import V
 
 ID = "C18"
-REQUIRED_THEOREMS = ["rows_per_apid", "create_rows", "rejects_mixed", "fits_unsigned", "fits_signed", "enum_is_str"]
+REQUIRED_THEOREMS = ["rows_per_apid", "create_rows", "rejects_mixed", "fits_unsigned", "fits_signed", "enum_is_str",
+                     "rep_of_decode", "ieee_fits", "mil_fits"]
 RULE = ("requests `dataset <definition> <raw 0|1> ((file1 chunks) (file2 chunks) ...)`: definitions with one fixed layout "
         "per APID covering every parameter type and encoding, interleaved multi-APID streams split over 1..3 files, value "
         "extremes of each encoding (all-zeros, all-ones, sign bit), raw and derived modes, plus streams whose packets of one "
@@ -31,10 +32,16 @@ def flat_def(rng):
 
 
 def generate(rng, tier):
-    ndefs = 10 if tier == "quick" else 80
-    for _ in range(ndefs):
-        d = flat_def(rng)
-        dsx = sx(d.sexpr())
+    ndefs = 10 if tier == "quick" else 2000
+    # every kind of type is made to occur: definition i must use type WANT[i % len(WANT)] somewhere
+    WANT = ["MIL_T", "F32_T", "F64_T", "F16LE_T", "S32LE_T", "S8_T", "S12_T", "ENUM_T", "BOOL_T", "U32_T"]
+    for i in range(ndefs):
+        want = xser.S(WANT[i % len(WANT)])
+        for _ in range(60):
+            d = flat_def(rng)
+            dsx = sx(d.sexpr())
+            if want in dsx:
+                break
         leaves = [p for p in d.paths() if len(p) == 2] or d.paths()
         for raw in ("0", "1"):
             for _ in range(2 if tier == "quick" else 4):
@@ -49,7 +56,7 @@ def generate(rng, tier):
                     files.append([hx(b"".join(pk))])
                 yield f"dataset {dsx} {raw} {sx(files)}", f"{'raw' if raw == '1' else 'derived'}-{nfiles}files"
     # streams whose packets of one APID differ in field set must be rejected
-    for _ in range(6 if tier == "quick" else 40):
+    for _ in range(6 if tier == "quick" else 200):
         d = defgen.Defn(rng, max_depth=2, fanout=3)
         deep = [p for p in d.paths() if len(p) == 3]
         if not deep:
